@@ -496,6 +496,7 @@ BINOPS = {
     'add': operator.add, 'sub': operator.sub, 'mul': operator.mul, 'truediv': operator.truediv,
     'mod': operator.mod, 'pow': operator.pow, 'lt': operator.lt, 'le': operator.le,
     'gt': operator.gt, 'ge': operator.ge, 'floordiv': operator.floordiv,
+    'eq': operator.eq, 'ne': operator.ne,      # `==`/`!=` on units and channel lists BUILD units
 }
 BIN_METHODS = ['min', 'max', 'round', 'trunc', 'atan2', 'hypot', 'ring1', 'difsqr', 'sumsqr', 'absdif',
                'thresh', 'amclip', 'scaleneg', 'clip2', 'fold2', 'wrap2', 'excess']
